@@ -2999,8 +2999,10 @@ HMCPchunkwrite(void       *cookie,    /* IN: access record to mess with */
     bytes_written = write_len;
 
     /* end access to chunk */
-    if (Hendaccess(chk_id) == FAIL)
+    if (Hendaccess(chk_id) == FAIL) {
+        chk_id = FAIL; /* the id is gone, whatever the outcome */
         HE_REPORT_GOTO("Hendaccess failed to end access to chunk", FAIL);
+    }
 
     ret_value = bytes_written;
 
